@@ -15,5 +15,7 @@ CONSTANTS
   Cards = {}
   WithCut = TRUE
   WithFormat = TRUE
+  WithOutage = TRUE
+  Retries = 3
 CONSTRAINT Done
 CHECK_DEADLOCK FALSE
